@@ -344,7 +344,7 @@ Definition insert_schema_table (s : store) (tname : string) (fds : schema) : sto
   end.
 
 (* RelationService.createTable (without the final flush) *)
-Definition st_create_table (s : store) (name : string) (fds : schema) : store * res unit :=
+Definition st_create_table0 (s : store) (name : string) (fds : schema) : store * res unit :=
   match rel_offset s name with
   | Err ETableNotExist =>
       let '(s1, pg) := create_page s in
@@ -356,6 +356,10 @@ Definition st_create_table (s : store) (name : string) (fds : schema) : store * 
   | Panic => (s, Panic)
   | _ => (s, Err ETableExists)
   end.
+
+(* a column name used twice is refused before anything else (ErrDuplicateColumn) *)
+Definition st_create_table (s : store) (name : string) (fds : schema) : store * res unit :=
+  if names_distinct (map fd_name fds) then st_create_table0 s name fds else (s, Err EOther).
 
 (* ---- flush: every dirty page and the header are written; pages become clean ---- *)
 Fixpoint clean_tree (t : tree) : tree :=
